@@ -24,6 +24,7 @@ import (
 type posterPlan struct {
 	N      int
 	Yield  []int // per post: 0 none, 1 Gosched, 2 sleep 20us
+	Sync   int   // >0: after every Sync posts the poster waits until all its handlers have run (every such round ends with a post that no later post follows)
 	Nested []int // per post: 0 none, 1 post again from the handler (loop thread), 2 handler spawns a goroutine that posts, 3 two levels on the loop thread
 }
 
@@ -36,7 +37,7 @@ const watchdog = 10 * time.Second
 
 func TestC05_Post(t *testing.T) {
 	rec := evid.For("C05")
-	rec.SetRule("rapid-generated plans: 1..8 poster goroutines x 1..200 Posts each with generated yield points (Gosched / 20us sleep) and nesting (handler posts again on the loop thread, handler spawns a goroutine that posts, two levels), while the loop goroutine (locked to its OS thread) runs a generated script of PollOne / RunOneFor(1ms) / blocking RunOne and arms and cancels a timer and a socket read (loop-thread accounting overlapping Post accounting); oracle: every handler id runs exactly once, on the loop thread (gettid), per-poster sequence numbers strictly increasing, a loop blocked in RunOne is woken by a later Post, the case finishes within a 10 s watchdog (deadlock = violation), Pending()==0 and Posted()==0 at quiescence, and the -race build reports no data race; TestC05_AsyncHandshakeReturnsToLoop: the library's own caller of Post - websocket.AsyncHandshake against a minimal server (conforming or 403, 0..3 ms delay) while 0..3 unrelated goroutines post and the loop either blocks in RunOne or polls: callback once, on the loop thread, loop woken, State() right inside the callback, Posted()==0 and Pending()==0 afterwards; non-trivial = >=2 posters overlapping loop-thread arm/disarm activity, or a nested post, or (handshake test) a blocked loop or concurrent posters; distinct = hash of the plan. The OS scheduler, not the harness, picks the interleavings: the data-race half is timing-independent (happens-before analysis), the rest is statistical.")
+	rec.SetRule("rapid-generated plans: 1..8 poster goroutines x 1..200 Posts each with generated yield points (Gosched / 20us sleep), optional rounds (after every 1..3 posts the poster waits until its handlers ran, so that many posts are the last one for a while) and nesting (handler posts again on the loop thread, handler spawns a goroutine that posts, two levels), while the loop goroutine (locked to its OS thread) runs a generated script of PollOne / RunOneFor(1ms) / blocking RunOne and arms and cancels a timer and a socket read (loop-thread accounting overlapping Post accounting); oracle: every handler id runs exactly once, on the loop thread (gettid), per-poster sequence numbers strictly increasing, a loop blocked in RunOne is woken by a later Post, the case finishes within a 10 s watchdog (deadlock = violation), Pending()==0 and Posted()==0 at quiescence, Posted() sampled continuously from a third goroutine stays within [returned Posts - finished handlers, started Posts - finished handlers + 1], and the -race build reports no data race; TestC05_AsyncHandshakeReturnsToLoop: the library's own caller of Post - websocket.AsyncHandshake against a minimal server (conforming or 403, 0..3 ms delay) while 0..3 unrelated goroutines post and the loop either blocks in RunOne or polls: callback once, on the loop thread, loop woken, State() right inside the callback, Posted()==0 and Pending()==0 afterwards; non-trivial = >=2 posters overlapping loop-thread arm/disarm activity, or a nested post, or (handshake test) a blocked loop or concurrent posters; distinct = hash of the plan. The OS scheduler, not the harness, picks the interleavings: the data-race half is timing-independent (happens-before analysis), the rest is statistical.")
 	vt.Check(t, 150, func(rt *rapid.T) {
 		np := rapid.IntRange(1, 8).Draw(rt, "posters")
 		plans := make([]posterPlan, np)
@@ -44,6 +45,9 @@ func TestC05_Post(t *testing.T) {
 		for i := range plans {
 			n := rapid.OneOf(rapid.IntRange(1, 20), rapid.IntRange(1, 200)).Draw(rt, "n")
 			p := posterPlan{N: n}
+			if rapid.Bool().Draw(rt, "rounds") {
+				p.Sync = rapid.IntRange(1, 3).Draw(rt, "sync")
+			}
 			ymode := rapid.IntRange(0, 2).Draw(rt, "ymode")
 			nmode := rapid.SampledFrom([]int{0, 0, 1, 2, 3}).Draw(rt, "nmode")
 			for j := 0; j < n; j++ {
@@ -97,7 +101,9 @@ func TestC05_Post(t *testing.T) {
 			loopTid   int64
 			stop      int32
 			armCount  int64
+			execBy    = make([]int64, np) // level-0 handlers executed, per poster
 			postErrs  int64
+			returned  int64 // Post calls that have returned successfully
 			loopDone  = make(chan struct{})
 			postersWG sync.WaitGroup
 			nestedWG  sync.WaitGroup
@@ -114,6 +120,9 @@ func TestC05_Post(t *testing.T) {
 					order[poster] = append(order[poster], seq)
 				}
 				mu.Unlock()
+				if level == 0 {
+					atomic.AddInt64(&execBy[poster], 1)
+				}
 				switch {
 				case mode == 1 && level < 1, mode == 3 && level < 2:
 					post(poster, seq, level+1, mode) // Post from inside a posted handler, on the loop thread
@@ -128,6 +137,8 @@ func TestC05_Post(t *testing.T) {
 			})
 			if err != nil {
 				atomic.AddInt64(&postErrs, 1)
+			} else {
+				atomic.AddInt64(&returned, 1)
 			}
 		}
 
@@ -196,6 +207,15 @@ func TestC05_Post(t *testing.T) {
 				defer postersWG.Done()
 				for j := 0; j < pl.N; j++ {
 					post(pi, j, 0, pl.Nested[j])
+					if pl.Sync > 0 && (j+1)%pl.Sync == 0 {
+						// end of a round: nothing more comes from this poster until the loop has run what it posted
+						for t0 := time.Now(); atomic.LoadInt64(&execBy[pi]) < int64(j+1); {
+							if time.Since(t0) > watchdog+time.Second {
+								return // the main goroutine's watchdog reports it
+							}
+							time.Sleep(20 * time.Microsecond)
+						}
+					}
 					switch pl.Yield[j] {
 					case 1:
 						runtime.Gosched()
@@ -205,6 +225,36 @@ func TestC05_Post(t *testing.T) {
 				}
 			}(pi, pl)
 		}
+		// Posted() sampled from yet another goroutine while all this goes on: every Post that has returned is either still
+		// counted or its handler has finished, and nothing is counted that was not posted.
+		var samplerStop int32
+		var samples int64
+		samplerDone := make(chan string, 1)
+		go func() {
+			problem := ""
+			for atomic.LoadInt32(&samplerStop) == 0 && problem == "" {
+				r, f0 := atomic.LoadInt64(&returned), atomic.LoadInt64(&executed)
+				p := int64(ioc.Posted())
+				f1, s1 := atomic.LoadInt64(&executed), atomic.LoadInt64(&expected)
+				switch {
+				case p+f1 < r:
+					problem = fmt.Sprintf("Posted() returned %d while %d Post calls had returned and only %d handlers had finished: %d queued handlers are not accounted for", p, r, f1, r-f1-p)
+				case p > s1-f0+1: // +1: a handler that has just finished is still counted until the loop has taken note of its return
+					problem = fmt.Sprintf("Posted() returned %d although at most %d handlers can be queued (%d Post calls started, %d handlers finished)", p, s1-f0, s1, f0)
+				}
+				atomic.AddInt64(&samples, 1)
+				runtime.Gosched()
+			}
+			samplerDone <- problem
+		}()
+		stopSampler := func() {
+			if atomic.CompareAndSwapInt32(&samplerStop, 0, 1) {
+				if problem := <-samplerDone; problem != "" {
+					rt.Fatalf("%s (sampled from a third goroutine, sample #%d)", problem, atomic.LoadInt64(&samples))
+				}
+			}
+		}
+		defer atomic.StoreInt32(&samplerStop, 1)
 		describe := func() string {
 			return fmt.Sprintf("posters=%d plans=%v script=%v expected=%d executed=%d Pending=%d", np, summarize(plans), script, atomic.LoadInt64(&expected), atomic.LoadInt64(&executed), ioc.Pending())
 		}
@@ -222,7 +272,7 @@ func TestC05_Post(t *testing.T) {
 		select {
 		case <-done:
 		case <-time.After(watchdog):
-			rt.Fatalf("watchdog: poster goroutines blocked inside Post for %v: %s", watchdog, describe())
+			rt.Fatalf("watchdog: poster goroutines not finished after %v - blocked inside Post, or waiting for a posted handler that the (running) loop never executed: lost wake-up: %s", watchdog, describe())
 		}
 		// every handler (including nested ones, which are posted by handlers) must run
 		waitFor("all posted handlers executed", func() bool {
@@ -232,6 +282,7 @@ func TestC05_Post(t *testing.T) {
 		waitFor("all nested handlers executed", func() bool {
 			return atomic.LoadInt64(&executed) == atomic.LoadInt64(&expected)
 		})
+		stopSampler()
 		// stop the loop; if it sits in a blocking RunOne only this Post can wake it
 		if err := ioc.Post(func() { atomic.StoreInt32(&stop, 1) }); err != nil {
 			rt.Fatalf("final Post: %v", err)
@@ -300,7 +351,7 @@ func summarize(plans []posterPlan) []string {
 				k = p.Nested[i]
 			}
 		}
-		out = append(out, fmt.Sprintf("n=%d/yield=%d/nest=%d", p.N, y, k))
+		out = append(out, fmt.Sprintf("n=%d/yield=%d/nest=%d/sync=%d", p.N, y, k, p.Sync))
 	}
 	return out
 }
